@@ -185,4 +185,38 @@ def api_list(prog):
             y = nf.atom("y", [R, Dy], owner="q")
             return dict(I=I, operands={"c": c, "q": q}, result=I.call_method(c, "integrate_log_conditional_y", [q], dict(y=y)), batch=["q"])
         out.append(("integrate_log_conditional_y", cls, "1/R", runiy))
+    # ---------------- approximate conditionals (R = 1 objects; batch on the integrating density)
+    from .approx import make_approx
+    for cls in ("LRBFGaussianConditional", "LSEMGaussianConditional", "HeteroscedasticExpConditional", "HeteroscedasticCoshM1Conditional"):
+        feature = cls.startswith("L")
+        Rp = R if feature else D(1)
+        for meth in ("affine_joint_transformation", "affine_marginal_transformation", "affine_conditional_transformation",
+                     "get_expected_moments", "get_expected_cross_terms"):
+            def runa(cls=cls, meth=meth, Rp=Rp):
+                I = build.new_interp()
+                c = make_approx(I, cls, "c")
+                px = build.pdf(I, Rp, sym("Dx"), "px")
+                return dict(I=I, operands={"c": c, "px": px}, result=I.call_method(c, meth, [px]), batch=["px"])
+            out.append((meth, cls, "1/R" if feature else "1/1", runa))
+        for meth in ("condition_on_x", "get_conditional_mu"):
+            def runx(cls=cls, meth=meth):
+                I = build.new_interp()
+                c = make_approx(I, cls, "c")
+                return dict(I=I, operands={"c": c}, result=I.call_method(c, meth, [build.points("x", N, sym("Dx"))]), batch=[None])
+            out.append((meth, cls, "R=1", runx))
+        if feature:
+            def runl(cls=cls):
+                I = build.new_interp()
+                c = make_approx(I, cls, "c")
+                q = build.pdf(I, R, sym("Dy") + sym("Dx"), "q")
+                return dict(I=I, operands={"c": c, "q": q}, result=I.call_method(c, "integrate_log_conditional", [q]), batch=["q"])
+            out.append(("integrate_log_conditional", cls, "1/R", runl))
+
+            def runly(cls=cls):
+                I = build.new_interp()
+                c = make_approx(I, cls, "c")
+                q = build.pdf(I, R, sym("Dx"), "q")
+                y = nf.atom("y", [R, sym("Dy")], owner="q")
+                return dict(I=I, operands={"c": c, "q": q}, result=I.call_method(c, "integrate_log_conditional_y", [q], dict(y=y)), batch=["q"])
+            out.append(("integrate_log_conditional_y", cls, "1/R", runly))
     return out
